@@ -21,7 +21,7 @@
    (blk, off) - the other entries of that directory, their order, and every other directory are
    unchanged; the end marker does not move (a deleted slot is no end marker: kill_dir_ok keeps
    clean_tail); names stay unique; long-name slots in front of the deleted short entry stay
-   behind as orphans: they were inert before and are untouched, so do_lfn still holds.
+   behind as orphans: dir_ok does not constrain long-name slots.
 
    ORDER OF THE TWO EFFECTS in the model (and in the crate): delete_directory_entry FIRST (the
    first byte of the slot becomes 0xE5, one block write), free_cluster_chain AFTERWARDS (FAT
@@ -96,8 +96,8 @@ Proof.
 Qed.
 
 (* ================================================================== 1. the names sfn_of_str produces *)
-(* 11 bytes, none of them below 0x20: a long-name slot that the invariant calls inert can
-   never be taken for such a name, and an end marker or (D29 aside) a deleted slot neither *)
+(* 11 bytes, none of them below 0x20: an end marker or (D29 aside) a deleted slot can never be
+   taken for such a name (a long-name slot neither: FsFat.matches skips those) *)
 Definition sfn_shape (l : list N) : Prop := length l = 11%nat /\ Forall (fun x => 32 <= x) l.
 
 Lemma del_set_bytes_shape l idx b : sfn_shape l -> idx < 11 -> 32 <= b -> sfn_shape (set_bytes l idx [b]).
@@ -154,11 +154,11 @@ Qed.
 Lemma del_nth_firstn (l : list N) k : (k < 11)%nat -> nth k (firstn 11 l) 0 = nth k l 0.
 Proof. intros H. apply nth_firstn_lt. exact H. Qed.
 
-(* a slot whose 11 name bytes are such a name: it is valid (unless the name starts with 0xE5)
-   and it is not an inert long-name slot *)
+(* a slot that matches such a name: it is valid (unless the name starts with 0xE5) and it is no
+   long-name slot *)
 Lemma del_match_short sfn t :
   sfn_shape sfn -> get8 sfn 0 <> 229 -> t_matches sfn t = true ->
-  t_name t = sfn /\ t_is_valid t = true /\ ~ lfn_inert (snd t).
+  t_name t = sfn /\ t_is_valid t = true /\ is_lfn (t_attr t) = false.
 Proof.
   intros [Hl Hf] H229 Hm. unfold t_matches in Hm.
   pose proof (matches_first _ _ Hm) as En. split; [exact En|].
@@ -167,8 +167,7 @@ Proof.
     apply nth_In. rewrite Hl. lia. }
   split.
   - unfold t_is_valid. apply (matches_valid sfn (snd t)); [lia|exact H229|exact Hm].
-  - intros (k & Hk & Hlt). rewrite <- (del_nth_firstn (snd t) k Hk), En in Hlt.
-    rewrite Forall_forall in Hf. specialize (Hf (nth k sfn 0) ltac:(apply nth_In; rewrite Hl; exact Hk)). lia.
+  - exact (proj1 (matches_parts _ _ Hm)).
 Qed.
 
 (* ================================================================== 2. pruning a tree at a slot position *)
@@ -427,17 +426,13 @@ Section Kill.
 
   Theorem kill_dir_ok own parent bl : dir_ok d v own parent bl -> dir_ok d1 v own parent bl.
   Proof.
-    intros [A B C D]. constructor.
+    intros [A B D]. constructor.
     - unfold clean_tail in *. rewrite (slots_of_upd d d1 blk i new bl Hsw).
       rewrite del_after_end_map by (intros t Ht; exact (kill_g_end bl t Ht)).
       apply Forall_forall. intros t Ht. apply in_map_iff in Ht. destruct Ht as (t' & <- & Ht').
       rewrite (kill_g_end bl t' (del_In_after_end _ _ Ht')).
       rewrite Forall_forall in A. exact (A t' Ht').
     - rewrite kill_shorts. apply del_nodup_map_filter. exact B.
-    - intros t Ht Hv Hl. rewrite kill_live in Ht. apply in_map_iff in Ht. destruct Ht as (t' & <- & Ht').
-      rewrite kill_g in *. destruct (atp t') eqn:E.
-      + unfold t_is_valid in Hv. cbn [snd] in Hv. rewrite Hv1 in Hv. discriminate.
-      + exact (C t' Ht' Hv Hl).
     - rewrite kill_live. unfold dots_ok in *. destruct (own =? CL_ROOT); [exact (kill_no_dots_map _ D)|].
       destruct D as (t0 & t1 & rest & El & D0 & D1 & Dr).
       assert (H0 : In t0 (slots_of d bl)) by (apply kill_live_in; rewrite El; left; reflexivity).
@@ -773,11 +768,9 @@ Proof.
   intros Hctx Hs H229 Hfind Hnd. pose proof (dx_ok _ _ _ _ _ _ _ Hctx) as Hok.
   rewrite (live_clean d bl' (do_tail _ _ _ _ _ Hok)) in Hfind. fold (dir_live d bl') in Hfind.
   destruct (find_some _ _ Hfind) as [Hin Hm].
-  destruct (del_match_short sfn t Hs H229 Hm) as (Hname & Hval & Hninert).
+  destruct (del_match_short sfn t Hs H229 Hm) as (Hname & Hval & Hnlfn).
   assert (Hshort : short_slot t = true).
-  { unfold short_slot. rewrite Hval. cbn [andb]. apply negb_true_iff.
-    destruct (is_lfn (t_attr t)) eqn:El; [|reflexivity]. exfalso.
-    exact (Hninert (do_lfn _ _ _ _ _ Hok t Hin Hval El)). }
+  { unfold short_slot. rewrite Hval. cbn [andb]. apply negb_true_iff. exact Hnlfn. }
   assert (Hattr : e_attr (t_entry (v_fat32 v) t) = t_attr t) by reflexivity.
   assert (Hdot : dot_slot t = false).
   { destruct (dot_slot t) eqn:Ed; [|reflexivity]. exfalso.
